@@ -55,7 +55,7 @@ var intPool = []int64{0, 1, -1, 2, 7, 10, 42, 100, 127, 128, -128, -129, 255, 25
 var floatPool = []float64{0, 1, -1, 0.5, 1.5, 100, 1e6, 1e20, 1e21, 1e-6, 1e-7, 0.1, 5e-324, math.MaxFloat64, math.MaxFloat32, 3.4028235677973366e38, 9007199254740993,
 	math.Copysign(0, -1), 123456789, 1e-5, 0.000001, 1e22, 16777217, 3.141592653589793, math.NaN(), math.Inf(1), math.Inf(-1), -1e-7, 1e300, 2.5}
 
-var strPool = []string{"", "a", "b", "ab", "Ab", "<&>", "\u2028\u2029", "\u00e9", "\xff", "a\xc0b", "\"\\", "\x00\x1f", "\x7f", "\u65e5\u672c", "\U0001f600", "null", "true", "1", "\xed\xa0\x80",
+var strPool = []string{"", "a", "b", "ab", "Ab", "<&>", "\u2028\u2029", "\u2029", "a\u2029b", "\u2028", "\u00e9", "\xff", "a\xc0b", "\"\\", "\x00\x1f", "\x7f", "\u65e5\u672c", "\U0001f600", "null", "true", "1", "\xed\xa0\x80",
 	"-1.5", "fail", "nilout", `{"a":1}`, ` [1, 2] `, `"<"`, `{"a":1,"a":2}`, "[", `"x"`, "{\n \"k\" : [ ] }", "\"\xff\"", "1 2", `"\u003c\u2028"`, "key", "\u212a", "a b", "\t\n\r\b\f", "0", "12", "-0", "+1", "1e2", "tru",
 	"2006-01-02T15:04:05Z", "Zm9v", "ki3", "3:4", "\"a\\u00e9\\ud83d\\ude00\"", "\"\\ud800\"", "{\"\\u0061\":1,\"a\":2}", " 1 ", "\"a\"\n", "\uff5e", "\uff5e\U0001f600", "\ue000", "Z", "z", "_", "a_b", "A-B"}
 
